@@ -828,13 +828,13 @@ impl Property for C20 {
     fn cases(&self, tier: Tier) -> u64 {
         match tier {
             Tier::Quick => 400,
-            Tier::Thorough => 20_000,
+            Tier::Thorough => 60_000,
         }
     }
     fn min_nontrivial(&self, tier: Tier) -> u64 {
         match tier {
             Tier::Quick => 90,
-            Tier::Thorough => 4_500,
+            Tier::Thorough => 13_000,
         }
     }
     fn rule(&self) -> &'static str {
